@@ -186,6 +186,37 @@ int main(int argc, char** argv) {
                     // position copies as the search makes them: save a copy, later assign it back into the connected position
                     Position c(pos);
                     pos = c;
+                } else if (act < 28 && !inNull) {
+                    // a snapshot assigned back after a shuffle: four reversible moves return to the same placement, then the snapshot
+                    // (same board, OTHER history: four plies shorter) is assigned into the connected position; the take-backs that
+                    // follow belong to the snapshot's history, not to the moves the evaluator has seen
+                    Position snap(pos);
+                    std::vector<Frame> made;
+                    auto quiet = [&](Move& out, const Move* want) {
+                        MoveList ml; legalMoves(pos, ml);
+                        for (int t = 0; t < 40; t++) {
+                            if (ml.size == 0) return false;
+                            const Move& c = ml[rnd.nextInt(ml.size)];
+                            if (want) { bool found = false; for (int i = 0; i < ml.size; i++) if (ml[i] == *want) found = true; if (!found) return false; out = *want; return true; }
+                            int pc = pos.getPiece(c.from());
+                            if (pc == Piece::WPAWN || pc == Piece::BPAWN || pos.getPiece(c.to()) != Piece::EMPTY) continue;
+                            if ((pc == Piece::WKING || pc == Piece::BKING) && std::abs(c.to().asInt() - c.from().asInt()) == 2) continue;
+                            out = c; return true;
+                        }
+                        return false;
+                    };
+                    Move m1, m2, b1, b2;
+                    bool ok = quiet(m1, nullptr);
+                    if (ok) { Frame f; f.kind = 0; f.m = m1; pos.makeMove(m1, f.ui); made.push_back(f); ok = quiet(m2, nullptr); }
+                    if (ok) { Frame f; f.kind = 0; f.m = m2; pos.makeMove(m2, f.ui); made.push_back(f); Move w(m1.to(), m1.from(), Piece::EMPTY); ok = quiet(b1, &w); }
+                    if (ok) { Frame f; f.kind = 0; f.m = b1; pos.makeMove(b1, f.ui); made.push_back(f); Move w(m2.to(), m2.from(), Piece::EMPTY); ok = quiet(b2, &w); }
+                    if (ok) { Frame f; f.kind = 0; f.m = b2; pos.makeMove(b2, f.ui); made.push_back(f); }
+                    if (ok && rnd.nextInt(3)) ev.evalPos();        // the evaluator has usually looked at the shuffled line
+                    if (ok) {
+                        pos = snap;                                // harness frames stay as they were before the shuffle
+                    } else {
+                        for (auto& f : made) stack.push_back(f);   // incomplete shuffle: ordinary moves
+                    }
                 } else {
                     MoveList ml;
                     legalMoves(pos, ml);
